@@ -41,6 +41,14 @@ C17_Selection == At("frame") =>
     /\ E.show_flows => (E.flow # 0 /\ E.flow \in SetOf(E.fc))
     /\ ~(E.show_chart /\ E.show_map)
 
+\* a draw or command that does not complete (the harness watchdog saw no progress and recorded where the
+\* main thread was): F24 is the layout solver of the ratatui dependency (cassowary) cycling on the
+\* over-constrained column widths of the hops table - nondeterministic (it depends on the process's hash
+\* seed); any other place is a violation
+KnownHang(e) == e.site = "cassowary"
+C17_NoHang == At("hang") => KnownHang(E)
+KF_C17     == (At("hang") /\ KnownHang(E)) => PrintT(<<"KNOWN-FINDING", "C17", "F24", l - 1>>)
+
 (***************************************************************************)
 (* C18                                                                      *)
 (***************************************************************************)
